@@ -12,13 +12,22 @@
 (* Adjacent = "separate" (code) | "merge" (adjacent flagged segments      *)
 (*            merged: mutant)                                              *)
 (* FitTarget = "clone" (code) | "wrapped" (fits the user's object: mutant)*)
+(* Rounds = 1 | 2: with 2 the user RECONFIGURES the wrapped detector       *)
+(*          object (set_params: its program becomes cps2) after the first  *)
+(*          fit / predict and fits the anomaliser again: the second answer *)
+(*          must follow the detector as configured NOW.                    *)
+(* CloneWhen = "every_fit" (code) | "first_fit" (the clone made by the     *)
+(*          first fit is kept and re-fitted: seeded change C17-e)          *)
 (***************************************************************************)
 EXTENDS AnomaliserDefs, FormatsDefs, TLC, Json
 
-CONSTANTS N, VNeg, VPos, Kinds, LoHi, Cmp, Adjacent, FitTarget, Emit, NSlices, Slice
+CONSTANTS N, VNeg, VPos, Kinds, LoHi, Cmp, Adjacent, FitTarget, Emit, NSlices, Slice, Rounds, CloneWhen
 
-VARIABLES x, cps, kind, lo, hi, wrappedFitted, cloneFitted, out, pc
-vars == <<x, cps, kind, lo, hi, wrappedFitted, cloneFitted, out, pc>>
+VARIABLES x, cps, kind, lo, hi, wrappedFitted, cloneFitted, out, pc,
+          cps2, round, cloneCps, out1
+vars == <<x, cps, kind, lo, hi, wrappedFitted, cloneFitted, out, pc, cps2, round, cloneCps, out1>>
+\* the wrapped detector's program (the changepoints it reports) as the user has configured it NOW
+Prog == IF round = 1 THEN cps ELSE cps2
 
 Init ==
     /\ x \in [0..(N - 1) -> (0 - VNeg)..VPos]
@@ -28,17 +37,19 @@ Init ==
     /\ (SumOver([i \in 0..(N - 1) |-> (x[i] + 5) * ((37 * i * i + 101 * i + 13) % 997)], 0..(N - 1)) + 331 * (lo + 9) + 577 * (hi + 9)
         + SumOver([c \in cps |-> c * c * 7], cps)) % NSlices = Slice
     /\ wrappedFitted = FALSE /\ cloneFitted = FALSE /\ out = <<>> /\ pc = "new"
+    /\ cps2 \in (IF Rounds = 2 THEN SUBSET (1..(N - 1)) ELSE {cps}) /\ round = 1 /\ cloneCps = {} /\ out1 = <<>>
 
 Fit ==
     /\ pc = "new" /\ pc' = "fitted"
     /\ IF FitTarget = "clone" THEN cloneFitted' = TRUE /\ UNCHANGED wrappedFitted
        ELSE wrappedFitted' = TRUE /\ cloneFitted' = TRUE
-    /\ UNCHANGED <<x, cps, kind, lo, hi, out>>
+    /\ cloneCps' = (IF CloneWhen = "first_fit" /\ cloneFitted THEN cloneCps ELSE Prog)     \* change_detector_ = change_detector.clone()
+    /\ UNCHANGED <<x, cps, kind, lo, hi, out, cps2, round, out1>>
 
 \* rows grouped by the dense label; a group's interval is (first row, last row + 1)
 Predict ==
     /\ pc = "fitted" /\ pc' = "done"
-    /\ LET dense == S2DChange(cps, N)
+    /\ LET dense == S2DChange(cloneCps, N)
            labs  == {dense[i] : i \in 0..(N - 1)}
            grp(l) == {i \in 0..(N - 1) : dense[i] = l}
            seg(l) == <<Min(grp(l)), Max(grp(l)) + 1>>
@@ -53,17 +64,23 @@ Predict ==
                                                 /\ ~\E c \in fl : c[2] = sg[1] \/ c[1] = sg[2]}
            res == IF Adjacent = "separate" THEN fl ELSE merged
        IN out' = [k \in 1..Cardinality(res) |-> LET c == SortedSeq({100 * sg[1] + sg[2] : sg \in res})[k] IN <<c \div 100, c % 100>>]
-    /\ UNCHANGED <<x, cps, kind, lo, hi, wrappedFitted, cloneFitted>>
+    /\ UNCHANGED <<x, cps, kind, lo, hi, wrappedFitted, cloneFitted, cps2, round, cloneCps, out1>>
 
-Next == Fit \/ Predict
+\* the user calls set_params on THEIR detector object (never on the anomaliser's clone) and fits the anomaliser again
+Reconfigure ==
+    /\ Rounds = 2 /\ round = 1 /\ pc = "done"
+    /\ round' = 2 /\ pc' = "new" /\ out1' = out
+    /\ UNCHANGED <<x, cps, kind, lo, hi, wrappedFitted, cloneFitted, out, cps2, cloneCps>>
+
+Next == Fit \/ Predict \/ Reconfigure
 
 \* exactly the flagged segments, each as its own interval, in order
-FlagsExactly == pc = "done" => Range(out) = Flagged(kind, x, cps, N, lo, hi, 1) /\ Len(out) = Cardinality(Range(out))
+FlagsExactly == pc = "done" => Range(out) = Flagged(kind, x, Prog, N, lo, hi, 1) /\ Len(out) = Cardinality(Range(out))
 Sorted == pc = "done" => \A k \in 1..(Len(out) - 1) : out[k][2] <= out[k + 1][1]
 \* the wrapped detector passed by the user is never fitted; a clone is
 WrappedUntouched == ~wrappedFitted /\ (pc # "new" => cloneFitted)
 
 CaseRecord == [n |-> N, x |-> [i \in 1..N |-> x[i - 1]], cps |-> SortedSeq(cps), kind |-> kind, lo |-> lo, hi |-> hi,
-               rows |-> out]
-EmitDone == (Emit /\ pc = "done") => PrintT(<<"CASE", ToJson(CaseRecord)>>)
+               rows |-> out, rounds |-> Rounds, cps2 |-> SortedSeq(cps2), rows1 |-> IF Rounds = 2 THEN out1 ELSE out]
+EmitDone == (Emit /\ pc = "done" /\ round = Rounds) => PrintT(<<"CASE", ToJson(CaseRecord)>>)
 =============================================================================
